@@ -40,6 +40,7 @@ class TTCFG(
     def __eq__(self, o: object) -> bool:
         return (
             isinstance(o, TTCFG)
+            and self.start == o.start
             and self.type_request == o.type_request
             and self.rules == o.rules
         )
